@@ -142,7 +142,7 @@ func fixedNaturalLogSum1[T fixed.Dx](e *Evaluator, arguments string) (any, error
 	if err != nil {
 		return nil, err
 	}
-	return f64.From[T](math.Log(f64.As[T, float64](value.Inc()))), nil
+	return f64.From[T](math.Log1p(f64.As[T, float64](value))), nil
 }
 
 func fixedRound[T fixed.Dx](e *Evaluator, arguments string) (any, error) {
